@@ -246,6 +246,10 @@ type Fake struct {
 	recAnomaly string                   // first record/attribute mismatch seen
 	acked      map[uint64]AckedAt       // where every acknowledged id was written
 
+	metaArmed   bool          // the next metadata request parks until released
+	metaParked  bool          // a metadata request is parked now
+	metaRelease chan struct{} // closed by ReleaseMetadata
+
 	inflight    map[TP]int // produce round trips currently inside the fake
 	twoInFlight bool       // two of the same partition were inside at the same time
 }
@@ -300,6 +304,36 @@ func (f *Fake) RecordAnomaly() string {
 	f.mu.Lock()
 	defer f.mu.Unlock()
 	return f.recAnomaly
+}
+
+// HoldMetadata arms the metadata hold: the NEXT metadata round trip parks
+// inside the fake (whatever its context says) until ReleaseMetadata.
+func (f *Fake) HoldMetadata() {
+	f.mu.Lock()
+	defer f.mu.Unlock()
+	f.metaArmed = true
+	f.metaRelease = make(chan struct{})
+}
+
+// MetadataHeld tells that a metadata request is parked.
+func (f *Fake) MetadataHeld() bool {
+	f.mu.Lock()
+	defer f.mu.Unlock()
+	return f.metaParked
+}
+
+// ReleaseMetadata lets the parked (or the next, if none parked yet) metadata
+// request go on.
+func (f *Fake) ReleaseMetadata() {
+	f.mu.Lock()
+	defer f.mu.Unlock()
+	if f.metaRelease != nil {
+		select {
+		case <-f.metaRelease:
+		default:
+			close(f.metaRelease)
+		}
+	}
 }
 
 // TwoInFlight reports whether two produce round trips of one topic partition
@@ -408,6 +442,15 @@ func (f *Fake) RoundTrip(ctx context.Context, addr net.Addr, req kafka.Request) 
 func (f *Fake) metadata(ctx context.Context, r *metadata.Request) (kafka.Response, error) {
 	f.mu.Lock()
 	defer f.mu.Unlock()
+	if f.metaArmed {
+		f.metaArmed = false
+		f.metaParked = true
+		ch := f.metaRelease
+		f.mu.Unlock()
+		<-ch
+		f.mu.Lock()
+		f.metaParked = false
+	}
 	if f.honorCtx {
 		if err := ctx.Err(); err != nil {
 			return nil, err
